@@ -96,6 +96,7 @@ type Tx struct {
 	Signer     *Key          // single signature
 	Multisig   *types.Address
 	Signers    []*Key   // multisig signers (in order, duplicates allowed)
+	AltSig     []int    // indexes into Signers that sign with another ECDSA nonce: a second, different valid signature of the same key
 	NonceOff   int64    // added to the expected nonce
 	FixedBytes []byte   // deliver exactly these bytes
 	Replay     int      // k>0: deliver again the bytes of the k-th most recent delivery of this history
@@ -146,7 +147,16 @@ func (t *Tx) Render(curNonce uint64) []byte {
 	if t.Multisig != nil {
 		tx.SignatureType = transaction.SigTypeMulti
 		tx.SetMultisigAddress(*t.Multisig)
-		for _, k := range t.Signers {
+		for i, k := range t.Signers {
+			alt := false
+			for _, a := range t.AltSig {
+				alt = alt || a == i
+			}
+			if alt {
+				h := tx.Hash()
+				tx.SetSignature(altSign(h[:], k.Priv))
+				continue
+			}
 			if err := tx.Sign(k.Priv); err != nil {
 				panic(err)
 			}
